@@ -560,7 +560,24 @@ def port_rules(R):
         nm = t.get("ngen") or t.get("ncallee") or ""
         if not nm.endswith(("Iterator::find", "Option::filter", "Iterator::position", "Iterator::any", "Iterator::find_map")):
             continue
-        inner = [cl for cl in closures_passed(F, cp, t) if any(callee_matches(b2["term"], MEMBER) for b2 in cl.blocks if b2["term"]["k"] == "call")]
+        def _member_verdict(cl, depth=2):
+            """the bool this closure returns is true only for a recorded port: the membership test itself, or (two levels deep) the verdict
+            of a sibling closure / same-crate helper that performs it (`let is_taken = |p| all.iter().any(..); … .find(|i| is_taken(*i))`)"""
+            prep(cl)
+            if any(callee_matches(b2["term"], MEMBER) for b2 in cl.blocks if b2["term"]["k"] == "call" and not b2["cleanup"]):
+                return R.bool_verdict("C19.ports.refuse", cl, CallGuard(MEMBER, ("true",), "requested port is recorded by a service"), "", emit=False)
+            if depth == 0:
+                return False
+            for b2 in cl.blocks:
+                t2 = b2["term"]
+                if t2["k"] != "call" or b2["cleanup"]:
+                    continue
+                for hb in F.by_npath.get(t2.get("ncallee") or "", []):
+                    if hb.crate == cl.crate and hb is not cl and _member_verdict(hb, depth - 1):
+                        if R.bool_verdict("C19.ports.refuse", cl, CallGuard([t2["ncallee"]], ("true",), "requested port is recorded by a service"), "", emit=False):
+                            return True
+            return False
+        inner = [cl for cl in closures_passed(F, cp, t) if _member_verdict(cl)]
         if not inner:
             continue
         n += 1
